@@ -57,15 +57,15 @@ type c09wl struct {
 }
 
 var c09rootPoints = []string{"run.enter", "run.locked", "run.ready"}
-var c09invokePoints = []string{"invoke.pre_check", "invoke.pre_child_run", "pool.acquire.pre_lock", "pool.acquire.registered", "pool.release.pre", "pool.release.done",
+var c09invokePoints = []string{"invoke.pre_check", "invoke.pre_child_run", "pool.acquire.pre_lock", "pool.acquire.locked", "pool.acquire.registered", "pool.release.pre", "pool.release.locked", "pool.release.done",
 	"child.run.enter", "child.run.locked", "child.run.ready", "child.run.exit"}
 
 func c09workloads() []c09wl {
 	return []c09wl{
 		{"loop", "global TICK\nfor {\n  TICK()\n}", false, 50000, c09rootPoints, false},
 		{"cb-pooled", "global (TICK, CALLP)\nf := func(x) {\n  return x + 1\n}\nfor {\n  TICK()\n  CALLP(f, 1)\n}", false, 50000, append(append([]string{}, c09rootPoints...), c09invokePoints...), false},
-		{"cb-unpooled", "global (TICK, CALLU)\nf := func(x) {\n  return x + 1\n}\nfor {\n  TICK()\n  CALLU(f, 1)\n}", false, 3000, append(append([]string{}, c09rootPoints...), "invoke.pre_check", "invoke.pre_child_run", "pool.acquire.pre_lock", "pool.acquire.registered", "child.run.enter", "child.run.locked", "child.run.ready", "child.run.exit"), false},
-		{"child-infinite", "global (TICK, CALLP)\nCALLP(func() {\n  for {\n    TICK()\n  }\n})\nreturn 1", false, 50000, []string{"run.ready", "invoke.pre_check", "invoke.pre_child_run", "pool.acquire.pre_lock", "pool.acquire.registered", "child.run.enter", "child.run.locked", "child.run.ready"}, false},
+		{"cb-unpooled", "global (TICK, CALLU)\nf := func(x) {\n  return x + 1\n}\nfor {\n  TICK()\n  CALLU(f, 1)\n}", false, 3000, append(append([]string{}, c09rootPoints...), "invoke.pre_check", "invoke.pre_child_run", "pool.acquire.pre_lock", "pool.acquire.locked", "pool.acquire.registered", "child.run.enter", "child.run.locked", "child.run.ready", "child.run.exit"), false},
+		{"child-infinite", "global (TICK, CALLP)\nCALLP(func() {\n  for {\n    TICK()\n  }\n})\nreturn 1", false, 50000, []string{"run.ready", "invoke.pre_check", "invoke.pre_child_run", "pool.acquire.pre_lock", "pool.acquire.locked", "pool.acquire.registered", "child.run.enter", "child.run.locked", "child.run.ready"}, false},
 		{"nested-child", "global (TICK, CALLP)\nCALLP(func() {\n  return CALLP(func() {\n    for {\n      TICK()\n    }\n  })\n})\nreturn 1", false, 50000, []string{"invoke.pre_check", "invoke.pre_child_run", "pool.acquire.registered", "child.run.enter", "child.run.ready"}, false},
 		{"sleep", "global TICK\ntime := import(\"time\")\nfor {\n  TICK()\n  time.Sleep(50 * time.Millisecond)\n}", false, 40, c09rootPoints, false},
 		{"eval-loop", "global TICK\nfor {\n  TICK()\n}", true, 50000, []string{"eval.pre_select", "eval.goroutine_start", "eval.started", "run.enter", "run.locked", "run.ready"}, false},
@@ -112,6 +112,16 @@ func (h *c09ctl) hook(point string, vm *ugo.VM) {
 		runtime.Gosched()
 	}
 	if h.action != nil && name == h.target && cnt == h.nth && h.fired.CompareAndSwap(false, true) {
+		if strings.HasSuffix(name, ".locked") {
+			// the goroutine holds the pool's mutex here: the action runs beside it while the mutex stays held for a
+			// moment (an Abort has to wait for the mutex - or, if it gives up instead, is lost), then the section goes on
+			go func() {
+				h.action()
+				close(h.actDone)
+			}()
+			time.Sleep(3 * time.Millisecond)
+			return
+		}
 		if h.race {
 			go func() {
 				h.action()
